@@ -4,7 +4,7 @@
 use crate::{
     engines::{query as q, table as t},
     ids::RelKey,
-    props::{c05, c06, c07, c08, c09},
+    props::{c05, c06, c07, c08, c09, c16, c17, c18},
 };
 
 pub struct Src<'a> {
@@ -267,5 +267,112 @@ pub fn write_seeds(dir: &std::path::Path) {
     ];
     for (i, m) in msgs.iter().enumerate() {
         w("c06_raw", &format!("msg-{i}"), &rm::encode(m));
+    }
+}
+
+// ---- C16 (same ranges as the proptest strategies: 6 buckets, 3 hot / 8 filler subnets, seq 1..3)
+fn c16_ksel(s: &mut Src) -> c16::KSel {
+    c16::KSel { boff: s.u8() % c16::NBOFF, idx: s.u16() }
+}
+
+fn c16_net(s: &mut Src) -> crate::keys::Net {
+    use crate::keys::Net;
+    match s.u8() % 16 {
+        0..=7 => Net::Hot(s.u8() % 3),
+        8..=10 => Net::Filler(s.u8() % 8),
+        11 => Net::V6Only,
+        12 => Net::NoAddr,
+        13 | 14 => Net::V6MappedHot(s.u8() % 3),
+        _ => Net::V6Loopback,
+    }
+}
+
+pub fn c16(data: &[u8]) -> c16::Case {
+    let mut s = Src::new(data);
+    let pending_zero = s.bool();
+    let m = s.u8();
+    let max_incoming = if m & 0x80 != 0 { 16 } else { m % 17 };
+    let mut ops = Vec::new();
+    while s.left() > 0 && ops.len() < 250 {
+        let op = match s.u8() % 16 {
+            0 => c16::Op::BulkFill { boff: s.u8() % c16::NBOFF, n: 14 + s.u8() % 3, conn: s.u16(), first_filler: s.u8() % 8 },
+            1..=6 => c16::Op::Insert { k: c16_ksel(&mut s), net: c16_net(&mut s), seq: 1 + s.u8() % 3, connected: s.bool(), incoming: s.bool() },
+            7 | 8 => c16::Op::UpdateNode { k: c16_ksel(&mut s), net: c16_net(&mut s), seq: 1 + s.u8() % 3, state: opt_bool(&mut s) },
+            9 => c16::Op::UpdateStatus { k: c16_ksel(&mut s), connected: s.bool(), direction: opt_bool(&mut s) },
+            10 => c16::Op::Remove { k: c16_ksel(&mut s) },
+            11 => c16::Op::Iter,
+            12 => c16::Op::Lookup { k: c16_ksel(&mut s) },
+            13 => c16::Op::Closest { k: c16_ksel(&mut s) },
+            14 => c16::Op::ByDist { boff: s.u8() % c16::NBOFF },
+            _ => c16::Op::ExpirePending { boff: s.u8() % c16::NBOFF },
+        };
+        ops.push(op);
+    }
+    c16::Case { pending_zero, max_incoming, ops, svc: None }
+}
+
+// ---- C17: the vote-table companion (blocks of voters on the vote table alone)
+pub fn c17_votes(data: &[u8]) -> c17::Case {
+    let mut s = Src::new(data);
+    let min = 2 + s.u8() % 11;
+    let mut blocks = Vec::new();
+    while s.left() > 0 && blocks.len() < 12 {
+        blocks.push((s.u16() % 1400, 1 + s.u16() % 700, s.u8() % 6));
+    }
+    c17::Case { dual: true, min, n_voters: 2, first_incoming: 99, n_cands: 2, steps: vec![], expiry: false, tight_record: false, table: Some(c17::VoteTable { min, blocks }) }
+}
+
+// ---- C18: limiter and filter arrival sequences
+fn c18_gap(s: &mut Src) -> c18::Gap {
+    match s.u8() % 8 {
+        0 | 1 => c18::Gap::Zero,
+        2 => c18::Gap::BelowT(s.u16()),
+        3 => c18::Gap::TMinus1,
+        4 => c18::Gap::ExactT,
+        5 => c18::Gap::BetweenTAndFull(s.u16()),
+        6 => c18::Gap::Full,
+        _ => c18::Gap::BeyondFull(s.u16()),
+    }
+}
+
+pub fn c18(data: &[u8]) -> c18::Case {
+    let mut s = Src::new(data);
+    if s.bool() {
+        let n = 1 + s.u8() % 32;
+        let t_ns = match s.u8() % 4 {
+            0 => 1_000,
+            1 => 1_000 + s.u32() as u64 % 999_000,
+            2 => 1_000_000 + s.u32() as u64 % 999_000_000,
+            _ => 1_000_000_000 + s.u64() % 9_000_000_001,
+        };
+        let extra = if s.bool() { s.u8() % 32 } else { 0 };
+        let mut events = Vec::new();
+        while s.left() > 0 && events.len() < 600 {
+            events.push(if s.u8() % 8 == 0 { c18::LEv::Prune } else { c18::LEv::Arrive { key: s.u8() % 6, gap: c18_gap(&mut s), tokens: if s.u8() % 10 == 0 { 1 + s.u8() % 33 } else { 1 } } });
+        }
+        if events.is_empty() {
+            events.push(c18::LEv::Prune);
+        }
+        c18::Case::Limiter(c18::LimCase { n, t_ns, extra, events })
+    } else {
+        let (ip_burst, node_burst, total_burst) = (1 + s.u8() % 6, 1 + s.u8() % 6, 1 + s.u8() % 24);
+        let ban_1h = s.bool();
+        let per_ip_features = s.u8() % 5 == 0;
+        let ip_family = s.u8() % 4;
+        let mut events = Vec::new();
+        while s.left() > 0 && events.len() < 80 {
+            events.push(match s.u8() % 16 {
+                0 => c18::FEv::PermitIp { ip: s.u8() % 3, on: s.bool() },
+                1 => c18::FEv::BanIp { ip: s.u8() % 3, on: s.bool() },
+                2 => c18::FEv::PermitNode { node: s.u8() % 4, on: s.bool() },
+                3 => c18::FEv::BanNode { node: s.u8() % 4, on: s.bool() },
+                4 => c18::FEv::Prune,
+                _ => c18::FEv::Arrive { ip: s.u8() % 3, node: s.u8() % 4 },
+            });
+        }
+        if events.is_empty() {
+            events.push(c18::FEv::Prune);
+        }
+        c18::Case::Filter(c18::FilCase { ip_burst, node_burst, total_burst, ban_1h, per_ip_features, events, ip_family })
     }
 }
